@@ -18,23 +18,59 @@ def make_tu(header, calls, verbose=False, pre=""):
     return '%s\n#include "%s"\nint main() {\n%s\n%s\n    return 0;\n}\n' % (
         pre, header, "    g_verbose = true;" if verbose else "", body)
 
-def run_groups(groups, workdir, per_tu=60, verbose=False):
+def run_groups(groups, workdir, per_tu=60, verbose=False, bisect=True):
     """groups: list of dict(key, header, isa, std, opt, defs, calls).  Returns list of
-    dict(group, lines, errors)"""
-    jobs = []; meta = {}
-    for gi, g in enumerate(groups):
-        for ci, cs in enumerate(chunk(g["calls"], per_tu)):
-            name = "tu_%d_%d" % (gi, ci)
+    dict(group, calls, res).  When a translation unit does not compile, its calls are recompiled one
+    per unit: calls that fail on their own are returned with res["rejected"] = True (the library does
+    not accept that instantiation), the others are run normally."""
+    def mk(prefix, items):
+        jobs = []; meta = {}
+        for n, (gi, cs) in enumerate(items):
+            g = groups[gi]
+            name = "%s_%d" % (prefix, n)
             jobs.append({"name": name, "source_text": make_tu(g["header"], cs, verbose, g.get("pre", "")),
                          "isa": g["isa"], "std": g.get("std", "c++14"), "opt": g.get("opt", "-O1"),
                          "defs": g.get("defs", ())})
             meta[name] = (gi, cs)
+        return jobs, meta
+    items = []
+    for gi, g in enumerate(groups):
+        for cs in chunk(g["calls"], per_tu):
+            items.append((gi, cs))
+    jobs, meta = mk("tu", items)
     res = core.build_and_run(jobs, workdir)
-    out = []
+    out = []; retry = []
     for name, r in res.items():
         gi, cs = meta[name]
-        out.append({"group": groups[gi], "calls": cs, "res": r})
+        if r["rc_compile"] != 0 and bisect and len(cs) > 1:
+            retry += [(gi, [c]) for c in cs]
+        else:
+            out.append({"group": groups[gi], "calls": cs, "res": r})
+    if retry:
+        jobs2, meta2 = mk("one", retry)
+        res2 = core.build_and_run(jobs2, workdir)
+        per_group = {}
+        for name, r in res2.items():
+            gi, cs = meta2[name]
+            st = per_group.setdefault(gi, [0, 0]); st[1] += 1
+            if r["rc_compile"] != 0:
+                r["rejected"] = True; st[0] += 1
+            out.append({"group": groups[gi], "calls": cs, "res": r})
+        # a group in which (almost) everything is rejected is a harness problem, not a library decision
+        for gi, (bad, tot) in per_group.items():
+            if tot >= 2 and bad == tot:
+                for o in out:
+                    if o["group"] is groups[gi] and o["res"].get("rejected"):
+                        o["res"]["rejected"] = False
     return out
+
+REJECTED = []
+
+def first_error(out):
+    for line in out.split("\n"):
+        if "error" in line:
+            return line.strip()[:300]
+    return out[-200:]
 
 def compare_with_model(results, v, ignore=()):
     """results from run_groups.  Returns (n_cases, mismatches, oracle_fails, infra_errors, lines)
@@ -43,6 +79,9 @@ def compare_with_model(results, v, ignore=()):
     infra = []
     for r in results:
         res = r["res"]; g = r["group"]
+        if res.get("rejected"):
+            REJECTED.append({"group": g["key"], "call": r["calls"][0], "why": first_error(res["compile_out"])})
+            continue
         if res["rc_compile"] != 0:
             infra.append({"group": g["key"], "what": "compile", "calls": r["calls"][:3], "out": res["compile_out"][-3000:]})
             continue
